@@ -430,6 +430,8 @@ def main():
                        'token carrying its format spec', 'the leading space menu adds in front of non-negative numbers is not checked']
     rep.bounds = {'fields': '1-7', 'levels': '1-3', 'boxes_per_level': '1-4'}
     common.run_cases(rep, run_case, cases())
+    from harness import conformance
+    conformance.run_into(rep)
     return rep.finish()
 
 
